@@ -205,6 +205,23 @@ def unique_rename_sequences():
             [rn('a', 'z'), cf('z', ('unique', 'false'))]]
 
 
+def constraint_spec():
+    spec = optrig.start_spec()
+    spec['apps'][0]['models'][0]['constraints'] = [{'type': 'UniqueConstraint', 'name': 'alpha_a_b_uniq',
+                                                    'fields': ['a', 'b']}]
+    return spec
+
+
+def constraint_sequences():
+    """a change that rebuilds the table, then the removal of the model's unique constraint (and the other way round,
+    and the removal alone): what the removal costs must not depend on what the batch did before it"""
+    add = {'t': 'AddField', 'model': 'Alpha', 'field': 'c', 'ftype': 'IntegerField', 'initial': None,
+           'attrs': [['null', 'true']]}
+    nn = {'t': 'ChangeField', 'model': 'Alpha', 'field': 'b', 'ftype': None, 'initial': '"x"', 'attrs': [['null', 'false']]}
+    drop = {'t': 'ChangeMeta', 'model': 'Alpha', 'prop': 'constraints', 'py_value': []}
+    return [[add, drop], [nn, drop], [drop, add], [drop], [add, nn, drop]]
+
+
 def run(ctx):
     dj.setup()
     quick = ctx.tier == 'quick'
@@ -241,7 +258,7 @@ def run(ctx):
     ir3 = list(optrig.valid_sequences(sig, ira, 3))
     ctx.rng.shuffle(ir3)
     ir += ir3[:50 if quick else 2000]
-    work = [(unique_spec(), q) for q in unique_rename_sequences()] + \
+    work = [(unique_spec(), q) for q in unique_rename_sequences()] + [(constraint_spec(), q) for q in constraint_sequences()] + \
         [(spec, q) for q in meta_sequences() + reuse_sequences() + rebuild_then_meta_sequences()] + [(spec2, q) for q in rel] + [(spec, q) for q in ir] + \
         [(spec, q) for q in seqs]
     merge_witness = None
